@@ -7,14 +7,17 @@ MAXU = (1 << 64) - 1
 CREATORS = "bcoslw"
 
 
-def sim(mode, ops):
-    """abstract run: for every op -> (ok, created_handle_id|None, created_arc_id|None)"""
+def sim(mode, ops, nbuf=0):
+    """abstract run: for every op -> (ok, created_handle_id|None, created_arc_id|None); nbuf = length of the static buffer"""
     live, arcs, res = [], [], []
     for o in ops:
         k = o[0]
         ok, ch, ca = True, None, None
         if k in "bc":
-            live.append(True); ch = len(live) - 1
+            if o[1] + o[2] <= nbuf:
+                live.append(True); ch = len(live) - 1
+            else:
+                ok = False
         elif k == "o":
             if o[2] < len(o[1]):
                 ok = False
@@ -66,10 +69,17 @@ class C14(Prop):
     quick_cases = 3000
     thorough_cases = 20000
     shard = 250
-    rule = ("random programs (<=40 ops) over a store of live handles in three modes: s = SharedString (public API), t = Cow<[Tracked]> "
-            "(element type with a counting destructor, through the cfg(metrics_verif) re-export), k = Cow<[Label]> inside Key (public "
-            "Key/Label API); constructors: static borrow, const_str/const_slice, owned with (len,cap) in {(0,0) via new(), (0,0) via "
-            "with_capacity(0), (0,n), (n,n), (n,m>n)}, shared from a caller-held Arc; clone, deref, cmp/eq/hash, into_owned, conversion to std::borrow::Cow (modes s, t), drop here or on "
+    rule = ("random programs (<=40 ops, plus up to 8 extra comparisons) over a store of live handles in four modes: s = SharedString (public "
+            "API), t = Cow<[Tracked]> (element type with a counting destructor) and l = Cow<[Label]> (both through the cfg(metrics_verif) "
+            "re-export), k = Cow<[Label]> inside Key (public Key/Label API). ONE static buffer per case (0-9 elements, 2-3 letter alphabet, "
+            "half of them periodic); every borrow (from_borrowed / const_str / const_slice) is a slice (offset, length) of it, drawn from "
+            "directed families: same start as an earlier borrow with another length (incl. the empty prefix), equal content at another "
+            "address, overlapping / adjacent, empty at any offset incl. one past the end, out of range (rejected by both sides), uniform; "
+            "owned and Arc contents are half of the time the content of a slice of the same buffer; owned with (len,cap) in {(0,0) via new(), (0,0) via "
+            "with_capacity(0), (0,n), (n,n), (n,m>n)}, shared from a caller-held Arc; clone, deref, compare (Ord::cmp, PartialEq::eq and equality of the two hashes "
+            "reported as three separate observables; ne and partial_cmp checked against them; in mode k over the label iterators) between "
+            "any two live handles (10% of the operations, plus a burst over random pairs in a third of the programs), into_owned, conversion "
+            "to std::borrow::Cow (modes s, t, l), drop here or on "
             "another thread, with_extra_labels, caller Arc clone/drop, from_owned of a ZST vector (capacity usize::MAX -> panic); ~5% of the "
             "operations deliberately name a consumed handle (rejected by both sides). A case is non-trivial if some operation changes the "
             "number of live heap blocks; distinct = distinct (mode, program, outputs)")
@@ -78,22 +88,24 @@ class C14(Prop):
                  "freed flags, Arc strong counts) and a value-semantics specification, for all programs; differential correspondence against the "
                  "real Cow under a counting/quarantining global allocator, element drop counters and Arc::strong_count")
     level_text = ("Theorems (Coq, all programs over all constructors and all (len, cap) incl. empty owned values of capacity 0 and of non-zero "
-                  "capacity, clone, deref, cmp/eq/hash, into_owned, conversion to std::borrow::Cow, with_extra_labels (clone + into_owned + Vec "
+                  "capacity, borrows that alias inside one static buffer, clone, deref, cmp/eq/hash, into_owned, conversion to std::borrow::Cow, with_extra_labels (clone + into_owned + Vec "
                   "growth + from_owned), drop, caller-side Arc clone/drop, operations naming consumed handles): the explicit-heap model of cow.rs "
                   "(kind recomputed from (len, cap) as Metadata::kind, every access checking a freed flag) produces, operation by operation, exactly "
                   "the results, live-block deltas, live-element deltas and Arc strong counts of a value semantics that has no heap "
                   "(C14_model_meets_spec); hence contents read back are the contents built from, no UseAfterFree/DoubleFree/BadFree/OutOfBounds "
                   "outcome is reachable, and once every handle is given back every buffer is freed, every Arc's strong count equals the caller's "
-                  "own references (freed iff none), and the observed block / element deltas sum to the Arcs the caller still holds and the elements "
+                  "own references (freed iff none), eq / cmp = Equal / equal hashes coincide and are content equality for every construction history "
+                  "(C14_eq_ord_hash_coincide, C14_eq_is_content_equality), and the observed block / element deltas sum to the Arcs the caller still holds and the elements "
                   "inside them (C14_balanced, C14_balanced_counters). The capacity-0 kind collision is covered (such a value owns nothing). The model "
-                  "is tied to /repo by running the real Cow (SharedString, Cow<[Tracked]>, Cow<[Label]> in Key) and the model on the same generated "
+                  "is tied to /repo by running the real Cow (SharedString, Cow<[Tracked]>, Cow<[Label]> directly and in Key) and the model on the same generated "
                   "programs each run, under a counting/quarantining allocator.")
-    level_note = ("Partial by nature: this is an ownership-accounting model - pointer arithmetic, alignment, layout computations inside Vec/Arc "
+    level_note = ("Partial by nature: this is an ownership-accounting model - pointers are (static buffer, offset) pairs or block indices, so aliasing borrows "
+                  "are expressible, but pointer arithmetic, alignment, layout computations inside Vec/Arc "
                   "and the unsafe Send/Sync impls are not modelled (dropping on another thread is exercised on the real code, not modelled; note "
                   "that `unsafe impl Send for Cow<T> where T: Send` does not require T: Sync although a Shared handle is an Arc<T> - unreachable "
                   "through the public API, where T is str or [Label]). Vec growth is modelled up to what the cow can see (zero / non-zero / "
                   "usize::MAX capacity; lengths above isize::MAX panic with capacity overflow). The std::borrow::Cow conversion is exercised on "
-                  "SharedString and Cow<[Tracked]>; Key does not expose it for its labels. ZST element vectors (capacity usize::MAX) make "
+                  "SharedString, Cow<[Tracked]> and Cow<[Label]>; Key does not expose it for its labels. ZST element vectors (capacity usize::MAX) make "
                   "from_owned panic after the vector was wrapped in ManuallyDrop, so its elements are never dropped: modelled and observed (z ops), "
                   "unreachable through the public API, excluded from the theorems by the well-formedness of capacities, not counted as a finding. "
                   "Trusted: Coq kernel; hand-written model (tied by differential runs, not by translation); std Vec/String/Arc; the driver's "
@@ -109,8 +121,49 @@ class C14(Prop):
         al = [0x61, 0x62] if mode == "s" else [1, 2, 3]
         return [rng.pick(al) for _ in range(n)]
 
-    def _owned(self, rng, mode):
-        d = self._content(rng, mode)
+    def _buf(self, rng, mode):
+        """the one static buffer of a case: short, tiny alphabet, often periodic, so that equal content occurs at
+        different addresses and prefixes / overlapping slices abound"""
+        al = [0x61, 0x62] if mode == "s" else [1, 2, 3]
+        n = rng.weighted([(1, 0), (1, 1), (2, 2), (3, 3), (4, 4), (3, 6), (2, rng.range(5, 9))])
+        if rng.chance(1, 2) and n >= 2:
+            per = [rng.pick(al) for _ in range(rng.range(1, 2))]
+            return [per[i % len(per)] for i in range(n)]
+        return [rng.pick(al) for _ in range(n)]
+
+    def _slice(self, rng, buf, prev):
+        """(off, len) of a borrowed slice: directed families around the slices already taken (same start with another
+        length, same content elsewhere, overlap, empty at any offset incl. one past the end) plus uniform ones"""
+        L = len(buf)
+        sel = rng.below(10)
+        if prev and sel < 3:                                             # same start, another length (incl. the empty prefix)
+            off, _ = rng.pick(prev)
+            return off, rng.range(0, L - off)
+        if prev and sel < 5:                                             # same content at another address, if there is one
+            off, n = rng.pick(prev)
+            cands = [o for o in range(0, L - n + 1) if o != off and buf[o:o + n] == buf[off:off + n]]
+            if cands:
+                return rng.pick(cands), n
+        if prev and sel < 6:                                             # overlapping / adjacent
+            off, n = rng.pick(prev)
+            o2 = min(L, off + rng.range(0, max(n, 1)))
+            return o2, rng.range(0, L - o2)
+        if sel < 7:                                                      # empty slice anywhere
+            return rng.range(0, L), 0
+        if sel < 8 and rng.chance(1, 4):                                 # out of range (rejected by both sides)
+            return rng.range(0, L + 1), L + 1
+        off = rng.range(0, L)
+        return off, rng.range(0, L - off)
+
+    def _like(self, rng, mode, buf):
+        """content for owned / Arc values: half of the time the content of some slice of the static buffer"""
+        if buf and rng.chance(1, 2):
+            off = rng.range(0, len(buf))
+            return list(buf[off:off + rng.range(0, len(buf) - off)])
+        return self._content(rng, mode)
+
+    def _owned(self, rng, mode, buf=()):
+        d = self._like(rng, mode, buf)
         n = len(d)
         sel = rng.below(6)
         if sel == 0:
@@ -126,9 +179,10 @@ class C14(Prop):
         return ["o", d, max(n, rng.pick([0, 1, 2, 3, 4])), 0]
 
     def gen_one(self, rng):
-        mode = rng.weighted([(4, "s"), (4, "t"), (3, "k")])
+        mode = rng.weighted([(4, "s"), (3, "t"), (3, "k"), (3, "l")])
+        buf = self._buf(rng, mode)
         ops, live, arcs = [], [], []
-        nh = 0
+        prev = []
         for _ in range(rng.range(1, 40)):
             lv = [i for i, x in enumerate(live) if x]
             av = [i for i, x in enumerate(arcs) if x > 0]
@@ -138,12 +192,15 @@ class C14(Prop):
                 o = [rng.pick("ldixXwj" if mode != "k" else "ldixXw"), h] if rng.chance(3, 4) else ["m", h, rng.below(len(live) + 1)]
                 if o[0] == "w":
                     o.append(self._content(rng, mode, 2))
-            elif r < 8 or not (lv or av):
-                o = [rng.pick("bc"), self._content(rng, mode)]
-            elif r < 24:
-                o = self._owned(rng, mode)
+            elif r < 14 or not (lv or av):
+                off, n = self._slice(rng, buf, prev)
+                o = [rng.pick("bc"), off, n]
+                if off + n <= len(buf):
+                    prev.append((off, n))
+            elif r < 25:
+                o = self._owned(rng, mode, buf)
             elif r < 32 and mode != "k":
-                o = ["A", self._content(rng, mode)]
+                o = ["A", self._like(rng, mode, buf)]
             elif r < 42 and av:
                 o = ["s", rng.pick(av)]
             elif r < 47 and av:
@@ -153,10 +210,10 @@ class C14(Prop):
             elif r < 55 and mode == "t":
                 o = ["z", rng.pick([0, 1, 3])]
             elif not lv:
-                o = self._owned(rng, mode)
-            elif r < 66:
+                o = self._owned(rng, mode, buf)
+            elif r < 63:
                 o = ["l", rng.pick(lv)]
-            elif r < 72:
+            elif r < 67:
                 o = ["d", rng.pick(lv)]
             elif r < 77:
                 o = ["m", rng.pick(lv), rng.pick(lv)]
@@ -169,8 +226,12 @@ class C14(Prop):
             else:
                 o = ["w", rng.pick(lv), self._content(rng, mode, 2)]
             ops.append(o)
-            (ok, ch, ca) = sim(mode, ops)[0][-1]
-            _, live, arcs = sim(mode, ops)
+            _, live, arcs = sim(mode, ops, len(buf))
+        # sometimes compare many pairs of what is live (every construction against every other)
+        lv = [i for i, x in enumerate(live) if x]
+        if len(lv) >= 2 and rng.chance(1, 3):
+            for _ in range(rng.range(2, 8)):
+                ops.append(["m", rng.pick(lv), rng.pick(lv)])
         # usually give everything back at the end (balance is observable only then)
         if rng.chance(4, 5):
             for i, x in enumerate(live):
@@ -179,7 +240,7 @@ class C14(Prop):
             for i, x in enumerate(arcs):
                 for _ in range(x):
                     ops.append(["D", i])
-        return dict(mode=mode, ops=ops)
+        return dict(mode=mode, buf=buf, ops=ops)
 
     def gen(self, rng, n):
         return [self.gen_one(rng) for _ in range(n)]
@@ -189,7 +250,9 @@ class C14(Prop):
         toks = []
         for o in c["ops"]:
             k = o[0]
-            if k in "bcA":
+            if k in "bc":
+                toks.append("%s%d,%d" % (k, o[1], o[2]))
+            elif k == "A":
                 toks.append(k + bytes(o[1]).hex())
             elif k == "o":
                 toks.append("o%s:%d:%d" % (bytes(o[1]).hex(), o[2], o[3]))
@@ -199,7 +262,7 @@ class C14(Prop):
                 toks.append("w%d:%s" % (o[1], bytes(o[2]).hex()))
             else:
                 toks.append("%s%d" % (k, o[1]))
-        return "%s | %s" % (c["mode"], " ".join(toks))
+        return "%s %s | %s" % (c["mode"], bytes(c["buf"]).hex() or "-", " ".join(toks))
 
     def parse_out(self, c, line):
         if line.strip() == "CRASH":
@@ -215,7 +278,7 @@ class C14(Prop):
         for o in c["ops"]:
             k = o[0]
             if k in "bc":
-                ops.append("FromBorrowed %s" % cq_bytes(bytes(o[1])))
+                ops.append("FromBorrowed %s %s %s" % (cq_bytes(bytes(c["buf"])), cq_N(o[1]), cq_N(o[2])))
             elif k == "o":
                 ops.append("FromOwned %s %s" % (cq_bytes(bytes(o[1])), cq_N(o[2])))
             elif k == "z":
@@ -259,8 +322,8 @@ class C14(Prop):
                 t = "RContent %s" % cq_bytes(bytes.fromhex(r[1:]))
             elif r.startswith("jB") or r.startswith("jO"):
                 t = "RStd %s %s" % (cq_bool(r[1] == "B"), cq_bytes(bytes.fromhex(r[2:])))
-            elif r.startswith("m"):
-                t = "RCmp %s" % cq_N(int(r[1:]))
+            elif r.startswith("m") and len(r) == 4:
+                t = "RCmp %s %s %s" % (cq_N(int(r[1])), cq_bool(r[2] == "1"), cq_bool(r[3] == "1"))
             else:
                 t = "RFault %s" % self.FAULTS.get(r, "Crash")
             xs.append("(%s, %s, %s, %s)" % (t, cq_Z(da), cq_Z(de), cq_list([cq_N(s) for s in ss])))
@@ -272,8 +335,8 @@ class C14(Prop):
         return [c, out]
 
     def shrink(self, c):
-        mode, ops = c["mode"], c["ops"]
-        old, _, _ = sim(mode, ops)
+        mode, ops, buf = c["mode"], c["ops"], c["buf"]
+        old, _, _ = sim(mode, ops, len(buf))
         cands = []
 
         def rebuild(skip=None, repl=None):
@@ -315,18 +378,22 @@ class C14(Prop):
                         amap[ca] = None
                     continue
                 new.append(o)
-                _, nch, nca = sim(mode, new)[0][-1]
+                _, nch, nca = sim(mode, new, len(buf))[0][-1]
                 if ch is not None:
                     hmap[ch] = nch
                 if ca is not None:
                     amap[ca] = nca
-            return dict(mode=mode, ops=new)
+            return dict(mode=mode, buf=buf, ops=new)
 
         for i in range(len(ops) - 1, -1, -1):
             cands.append(rebuild(skip=i))
         for i, o in enumerate(ops):
-            if o[0] in "bcA" and len(o[1]) > 0:
+            if o[0] == "A" and len(o[1]) > 0:
                 cands.append(rebuild(repl=(i, [o[0], o[1][:-1]])))
+            if o[0] in "bc" and o[2] > 0 and o[1] + o[2] <= len(buf):
+                cands.append(rebuild(repl=(i, [o[0], o[1], o[2] - 1])))
+            if o[0] == "c":
+                cands.append(rebuild(repl=(i, ["b", o[1], o[2]])))
             if o[0] == "o" and len(o[1]) > 0 and o[3] == 0:
                 cands.append(rebuild(repl=(i, ["o", o[1][:-1], o[2], 0])))
             if o[0] == "o" and o[2] > len(o[1]) and o[3] == 0:
@@ -335,8 +402,11 @@ class C14(Prop):
                 cands.append(rebuild(repl=(i, ["w", o[1], o[2][:-1]])))
             if o[0] == "X":
                 cands.append(rebuild(repl=(i, ["x", o[1]])))
-        if mode != "s" and not any(o[0] in "zsACDj" for o in ops):
-            cands.append(dict(mode="k" if mode == "t" else "t", ops=ops))
+        used = max([o[1] + o[2] for o in ops if o[0] in "bc" and o[1] + o[2] <= len(buf)] + [0])
+        if used < len(buf) and not any(o[0] in "bc" and o[1] + o[2] > len(buf) for o in ops):
+            cands.append(dict(mode=mode, buf=buf[:used], ops=ops))           # drop the unused tail of the static buffer
+        if mode in "tl" and not any(o[0] == "z" for o in ops):
+            cands.append(dict(mode="l" if mode == "t" else "t", buf=buf, ops=ops))
         return [x for x in cands if x["ops"]]
 
 
